@@ -203,16 +203,22 @@ def singleTensor {α} (t : TId) : List (RNode α) → List (RNode α)
 
 /-! ## Buffet statistics (`BuffetStats`) -/
 
-structure Stats (α : Type) where
+/-- The access statistics of a buffet (`total_*` fields of `BuffetStats`). -/
+structure Counts (α : Type) where
   readsToParent : α
   writesToParent : α
   skippedFirst : α          -- total_skipped_first_reads_to_parent
-  maxOccupancy : α
-  nLoopsAbove : Nat
   readActions : α
   writeActions : α
   skReadActions : α         -- total_skipped_first_read_actions
   skWriteActions : α        -- total_skipped_first_write_actions
+  deriving Repr
+
+/-- `BuffetStats`: access statistics, `max_occupancy`, `n_loops_above`. -/
+structure Stats (α : Type) where
+  c : Counts α
+  maxOccupancy : α
+  nLoopsAbove : Nat
   deriving Repr
 
 /-- Key of a buffet in the per-tensor analysis: a holder level or the compute level. -/
@@ -228,23 +234,28 @@ def Level.dflt : Level α :=
   { isToll := false, size := 1, leak := 0, actionsScale := 1, skipInitial := true, bpvOv := [], bpa := none, vpa := [],
     read := Act.dflt, write := Act.dflt, dir := [] }
 
-def Stats.zero : Stats α :=
-  { readsToParent := 0, writesToParent := 0, skippedFirst := 0, maxOccupancy := 0, nLoopsAbove := 0,
+def Counts.zero : Counts α :=
+  { readsToParent := 0, writesToParent := 0, skippedFirst := 0,
     readActions := 0, writeActions := 0, skReadActions := 0, skWriteActions := 0 }
+
+def Stats.zero : Stats α := { c := Counts.zero, maxOccupancy := 0, nLoopsAbove := 0 }
 
 /-- `BuffetStats.repeat_temporal(factor, is_fully_relevant)` followed by `blank() += …` (identity on every field):
 every `total_`/`max_`/`min_` field is multiplied, except `skipped_first` fields through a loop that is not fully
-relevant, and `max_occupancy`. Also the `n_loops_above + 1` of `analyze_temporal`. -/
-def Stats.repeatTemporal (s : Stats α) (n : α) (relevant : Bool) : Stats α :=
+relevant (and `max_occupancy`, see `Stats.repeatTemporal`). -/
+def Counts.repeatTemporal (s : Counts α) (n : α) (relevant : Bool) : Counts α :=
   { readsToParent := s.readsToParent * n
     writesToParent := s.writesToParent * n
     skippedFirst := if relevant then s.skippedFirst * n else s.skippedFirst
-    maxOccupancy := s.maxOccupancy
-    nLoopsAbove := s.nLoopsAbove + 1
     readActions := s.readActions * n
     writeActions := s.writeActions * n
     skReadActions := if relevant then s.skReadActions * n else s.skReadActions
     skWriteActions := if relevant then s.skWriteActions * n else s.skWriteActions }
+
+/-- `repeat_temporal` on the whole record: `max_occupancy` is not affected by temporal loops above; also the
+`n_loops_above + 1` of `analyze_temporal`. -/
+def Stats.repeatTemporal (s : Stats α) (n : α) (relevant : Bool) : Stats α :=
+  { c := s.c.repeatTemporal n relevant, maxOccupancy := s.maxOccupancy, nLoopsAbove := s.nLoopsAbove + 1 }
 
 def getShape (shape : List α) (rv : RV) : α := shape.getD rv 1
 
@@ -303,13 +314,13 @@ def Ctx.spec (c : Ctx α) : TensorSpec α := c.w.tensors.getD c.t { rvs := [], i
 def dirOf (lv : Level α) (t : TId) : Dir := (lookup lv.dir t).getD Dir.upDown
 
 /-- The body of `analyze_storage` for one tensor (also the body of `analyze_toll`, which calls it with
-`propagate_child_results=True`, per-tensor direction flags and `count_writes=False`, and afterwards sets
-`max_occupancy = 0`).  `stats` are the buffet's statistics created by its Reservation node below, `child` the
-statistics of the next buffet of the tensor below (`get_child_buffet_stats`).  `hasParent` = a TensorHolder of this
-tensor occurs above; the backing holder of a tensor is the first node holding it, so `is_backing = ¬hasParent` and
-`below_backing = hasParent` for a node that holds the tensor. -/
-def holderStats (lv : Level α) (t : TId) (ts : TensorSpec α) (isTollNode : Bool) (hasParent : Bool) (shape : List α)
-    (stats : Stats α) (child : Option (Stats α)) : Stats α :=
+`propagate_child_results=True`, per-tensor direction flags and `count_writes=False`).
+`stats` are the buffet's statistics created by its Reservation node below, `child` the statistics of the next buffet
+of the tensor below (`get_child_buffet_stats`).  `hasParent` = a TensorHolder of this tensor occurs above; the backing
+holder of a tensor is the first node holding it, so `is_backing = ¬hasParent` and `below_backing = hasParent` for a
+node that holds the tensor. -/
+def holderCounts (lv : Level α) (t : TId) (ts : TensorSpec α) (isTollNode : Bool) (hasParent : Bool) (shape : List α)
+    (stats : Counts α) (child : Option (Counts α)) : Counts α :=
   let isOut := ts.isOutput
   -- Toll component ⇒ skip_initial = True ("inherits the value from the child"); Memory ⇒ its setting
   let skipInitial := if lv.isToll then true else lv.skipInitial
@@ -321,7 +332,7 @@ def holderStats (lv : Level α) (t : TId) (ts : TensorSpec α) (isTollNode : Boo
   let belowBacking := hasParent
   let fills := tileSize shape ts.rvs
   let inherit := propagate && child.isSome
-  let val (f : Stats α → α) : α := match child with
+  let val (f : Counts α → α) : α := match child with
     | some ch => if inherit then f ch else fills
     | none => fills
   -- totals exchanged with the parent
@@ -343,18 +354,23 @@ def holderStats (lv : Level α) (t : TId) (ts : TensorSpec α) (isTollNode : Boo
   let stats := if countUp then
       { stats with readActions := stats.readActions + stats.writesToParent * readScale } else stats
   -- exchanges with the child
-  let stats := match child with
-    | none => stats
-    | some ch =>
-      let stats := if countDown then
-          let stats := { stats with readActions := stats.readActions + ch.readsToParent * readScale }
-          if skipInitial then
-            { stats with skReadActions := stats.skReadActions + ch.skippedFirst * readScale } else stats
-        else stats
-      if countUp then
-        { stats with writeActions := stats.writeActions + ch.writesToParent * writeScale } else stats
-  -- analyze_toll: max_occupancy = 0
-  if isTollNode then { stats with maxOccupancy := 0 } else stats
+  match child with
+  | none => stats
+  | some ch =>
+    let stats := if countDown then
+        let stats := { stats with readActions := stats.readActions + ch.readsToParent * readScale }
+        if skipInitial then
+          { stats with skReadActions := stats.skReadActions + ch.skippedFirst * readScale } else stats
+      else stats
+    if countUp then
+      { stats with writeActions := stats.writeActions + ch.writesToParent * writeScale } else stats
+
+/-- `analyze_storage` on the whole record; `analyze_toll` afterwards sets `max_occupancy = 0`. -/
+def holderStats (lv : Level α) (t : TId) (ts : TensorSpec α) (isTollNode : Bool) (hasParent : Bool) (shape : List α)
+    (stats : Stats α) (child : Option (Stats α)) : Stats α :=
+  { c := holderCounts lv t ts isTollNode hasParent shape stats.c (child.map (·.c))
+    maxOccupancy := if isTollNode then 0 else stats.maxOccupancy
+    nLoopsAbove := stats.nLoopsAbove }
 
 /-- `analyze_storage` / `analyze_toll` on the buffet table `tb` produced by the nodes below. -/
 def analyzeHolder (c : Ctx α) (lvl : Lvl) (isTollNode : Bool) (hasParent : Bool) (shape : List α)
@@ -365,6 +381,13 @@ def analyzeHolder (c : Ctx α) (lvl : Lvl) (isTollNode : Bool) (hasParent : Bool
       (holderStats lv c.t c.spec isTollNode hasParent shape stats (Table.child tb (.mem lvl))))
   | _, _ => none
 
+/-- `analyze_compute`: the buffet of the compute level for one tensor. -/
+def computeCounts (isOut computeSkip : Bool) : Counts α :=
+  { (Counts.zero : Counts α) with
+    readsToParent := 1
+    writesToParent := if isOut then 1 else 0
+    skippedFirst := if isOut && computeSkip then 1 else 0 }
+
 /-- `analyze_node` on the single-tensor mapping.  Returns the buffet table of the tensor and the compute count
 (`ComputeStats.total_ops` = `max_latency` = `max_per_unit_ops` without spatial loops). `none` = the Python raises. -/
 def analyzeNodes (c : Ctx α) : (hasParent : Bool) → (shape : List α) → List (RNode α) → Option (Table α × α)
@@ -372,13 +395,7 @@ def analyzeNodes (c : Ctx α) : (hasParent : Bool) → (shape : List α) → Lis
   | _, _, .node .compute :: _ =>
     -- analyze_compute
     let isOut := c.spec.isOutput
-    let s : Stats α :=
-      { (Stats.zero : Stats α) with
-        readsToParent := 1
-        writesToParent := if isOut then 1 else 0
-        skippedFirst := if isOut && c.arch.compute.skipInitial then 1 else 0
-        maxOccupancy := 1 }
-    some ([(.comp, s)], 1)
+    some ([(.comp, { c := computeCounts isOut c.arch.compute.skipInitial, maxOccupancy := 1, nLoopsAbove := 0 })], 1)
   | hp, shape, .node (.loop rv tile) :: rest =>
     -- analyze_temporal with loop_stride_and_shape: repeats = shape / stride, child shape = stride
     let n := getShape shape rv / tile
@@ -393,8 +410,7 @@ def analyzeNodes (c : Ctx α) : (hasParent : Bool) → (shape : List α) → Lis
     | some (tb, ops), some lv =>
       if (Table.find tb (.mem lvl)).isSome then none else
       let s : Stats α :=
-        { (Stats.zero : Stats α) with
-          maxOccupancy := tileSize shape c.spec.rvs * bitsPerValue lv c.t c.spec.bpv }
+        { c := Counts.zero, maxOccupancy := tileSize shape c.spec.rvs * bitsPerValue lv c.t c.spec.bpv, nLoopsAbove := 0 }
       some ((.mem lvl, s) :: tb, ops)
     | _, _ => none
   | hp, shape, .node (.storage lvl _ _) :: rest =>
@@ -468,8 +484,8 @@ structure Result (α : Type) where
   memUsage : List (Lvl × α)
   deriving Repr
 
-def netRead (s : Stats α) [Sub α] : α := s.readActions - s.skReadActions
-def netWrite (s : Stats α) [Sub α] : α := s.writeActions - s.skWriteActions
+def netRead (s : Stats α) [Sub α] : α := s.c.readActions - s.c.skReadActions
+def netWrite (s : Stats α) [Sub α] : α := s.c.writeActions - s.c.skWriteActions
 
 def insertSorted (n : Nat) : List Nat → List Nat
   | [] => [n]
